@@ -274,6 +274,30 @@ def factory_rules(chk, S, r4):
             want_kw = {"diffuse_derivatives": kw["diffuse_derivatives"], "diffuse_eps": kw["diffuse_eps"], "output_scale": kw["output_scale"]}
             ok_dif = out is T.atom("PRIOR") and len(dif_calls) == 1 and list(dif_calls[0][0]) == want_args and dif_calls[0][1] == want_kw
             r4.require(ok_dif, f"{cls}.{fac} forwards", f"{fac}_diffuse(..., std, diffuse_derivatives=, diffuse_eps=, output_scale=) unchanged", f"called with {T.show(dif_calls, 3)}", qual, cfg)
+        # default standard deviations: exact -> zeros, inexact -> inexact_eps * ones (shaped like the mean / like one scalar per coefficient)
+        for exact in (True, False):
+            it = S.interp()
+            ssm = it.instantiate(it.class_value(qual), [], {}, "<harness>")
+            m = [T.atom("sd.m0", array=True), T.atom("sd.m1", array=True)]
+            try:
+                sd_ = call(it, method(it, ssm, "_tcoeffs_standard_deviation"), m, is_exact=exact, inexact_eps=A("ieps"))
+            except (AnalysisError, RaiseSignal) as e:
+                r4.unknown(f"{cls}._tcoeffs_standard_deviation(is_exact={exact})", str(e), qual, {"model": fam})
+                continue
+            S.absorb(it)
+            leaves = list(sd_) if isinstance(sd_, (list, tuple)) else []
+            if exact:
+                ok = len(leaves) == 2 and all(isinstance(x, T.Term) and x.op in ("np.zeros_like", "np.zeros") and not T.value_atoms(x) for x in leaves)
+                want = "zeros"
+            else:
+                from ..hdomain import Hom
+
+                ok = len(leaves) == 2
+                for x in leaves:
+                    hom = Hom({A("ieps"): 1}, default_atom_degree=0)
+                    ok = ok and hom.deg(x) == 1 and T.value_atoms(x) == {"ieps"} and any(t_.op in ("np.ones_like", "np.ones") for t_ in T.subterms(x))
+                want = "inexact_eps * ones"
+            r4.require(bool(ok), f"{cls}._tcoeffs_standard_deviation(is_exact={exact})", f"one entry per coefficient, {want}", f"{T.show(sd_, 4)}", qual, {"model": fam})
         # the diffuse extension
         it = S.interp()
         ssm = it.instantiate(it.class_value(qual), [], {}, "<harness>")
